@@ -117,6 +117,10 @@ COMPONENT_SPECS = [
     {"kind": "cert", "allow_fp": "other", "prefix": "/", "then_lax_duplicate": "any-cert"},
     {"kind": "cert", "allow_fp": "other", "prefix": "/private/", "then_lax_duplicate": "nothing-required"},
     {"kind": "cert", "allow_fp": None, "prefix": "/", "then_lax_duplicate": "nothing-required"},
+    # a list of allowed certificates that is present and EMPTY admits nobody (with and without "a certificate is required")
+    {"kind": "cert", "allow_fp": "empty"},
+    {"kind": "cert", "allow_fp": "empty", "require": False},
+    {"kind": "cert", "allow_fp": "empty", "prefix": "/private/", "require": False},
 ]
 
 
@@ -147,7 +151,9 @@ def build_component(spec, log, loop, client_fp, idx):
             fps = {certs.identity("c04-appended", "ec").fingerprint}
         elif spec["allow_fp"] == "other":
             fps = {"sha256:" + "ab" * 32}
-        rules = [CertificateAuthPathRule(prefix=spec.get("prefix", "/"), require_cert=True, allowed_fingerprints=fps)]
+        elif spec["allow_fp"] == "empty":
+            fps = set()
+        rules = [CertificateAuthPathRule(prefix=spec.get("prefix", "/"), require_cert=spec.get("require", True), allowed_fingerprints=fps)]
         if spec.get("then_lax_duplicate"):
             # the same prefix once more further down, asking for less: the first matching rule applies
             rules.append(CertificateAuthPathRule(prefix=spec.get("prefix", "/"), require_cert=bool(spec["then_lax_duplicate"] == "any-cert")))
@@ -174,7 +180,7 @@ def expected_of(spec, has_cert, fp_presented, req_path="/"):
     if k == "cert":
         if not has_cert:
             return "deny", b"60 "
-        if spec["allow_fp"] == "other":
+        if spec["allow_fp"] in ("other", "empty"):
             return "deny", b"61 "
         if spec["allow_fp"] == "appended":
             # only the certificate whose key the client proved counts, never one it merely appended
